@@ -234,6 +234,21 @@ def mode_table(repo: Repo, rep):
             rep.violation("R-MODE-TABLE", f, c, f"`{short(c, 60)}` fixes an option ({short(own[0], 40)}) that does not come from the project's black configuration: files that `black` itself accepts are judged 'not formatted' (the final pass is skipped) or are re-wrapped differently", construct="mode-ctor-args")
         else:
             rep.ok("R-MODE-TABLE", f, c, "Mode() starts from black's defaults")
+    # every option is read on its own: the test `"<key>" in config` of one option is not nested in / chained behind the test of another
+    keyconds = [c for c in cfg.conds() if isinstance(c.ast, ast.Compare) and len(c.ast.ops) == 1 and isinstance(c.ast.ops[0], ast.In) and isinstance(c.ast.left, ast.Constant) and c.ast.left.value in MODE_KEYS]
+    from ..cfg import dominating_edges as _de
+
+    for c in keyconds:
+        for cn, lab in _de(cfg, c):
+            if cn in keyconds and cn is not c:
+                rep.violation(
+                    "R-MODE-TABLE",
+                    f,
+                    c.ast,
+                    f"the black option `{c.ast.left.value}` is only read on the {'true' if lab == 'T' else 'false'} edge of `{norm(cn.ast)}` (elif / nested if): with both options in [tool.black] one of them is ignored - "
+                    "a clean file is judged 'not formatted' and the final pass is skipped",
+                    construct=f"dependent:{c.ast.left.value}",
+                )
     # the Mode handed out is the one built in this call for this path: not an object kept in a config / module attribute
     for r in cfg.stmts(ast.Return):
         v = r.ast.value
